@@ -73,6 +73,8 @@ def cases(rng, tier):
         p = W.random_program(rng, depth_bias=(i % 3 == 0), pc=(i % 5 == 0),
                              n_helpers=(rng.randint(6, 12) if i % 7 == 0 else None))
         out.append(mk_case(p, "random_dag"))
+    for i in range(nrand // 5):
+        out.append(mk_case(W.diamond_program(rng, "pc" if i % 3 == 0 else "global"), "diamond_across_stages"))
     return out
 
 
